@@ -284,10 +284,118 @@ class ElseAfterTermBack(Base):
                     self.block(b)
 
 
+class RenameLocals(Base):
+    """every local variable (not parameters, not names declared global/nonlocal, not names also used as attributes of self) gets a new name"""
+
+    def run(self, tree):
+        for fn in [n for n in ast.walk(tree) if isinstance(n, ast.FunctionDef)]:
+            params = {a.arg for a in fn.args.args + fn.args.kwonlyargs + fn.args.posonlyargs}
+            if fn.args.vararg:
+                params.add(fn.args.vararg.arg)
+            if fn.args.kwarg:
+                params.add(fn.args.kwarg.arg)
+            skip = set(params)
+            nested = [n for n in ast.walk(fn) if isinstance(n, (ast.FunctionDef, ast.Lambda, ast.ClassDef)) and n is not fn]
+            for n in ast.walk(fn):
+                if isinstance(n, (ast.Global, ast.Nonlocal)):
+                    skip |= set(n.names)
+            if nested:
+                continue            # closures: leave the function alone
+            stored = {n.id for n in ast.walk(fn) if isinstance(n, ast.Name) and isinstance(n.ctx, (ast.Store, ast.Del))} - skip
+            # names used as keyword names in f-string debug (`{x=}`) or in locals()/eval are not handled: the package has none
+            mapping = {nm: f'{nm}_rn' for nm in stored}
+            for n in ast.walk(fn):
+                if isinstance(n, ast.Name) and n.id in mapping:
+                    n.id = mapping[n.id]
+                    self.hit()
+                elif isinstance(n, ast.ExceptHandler) and n.name in mapping:
+                    n.name = mapping[n.name]
+
+
+class NextToLoop(Base):
+    """x = next((v for v in L if P), None)  ->  x = None ; for v in L: if P: x = v; break"""
+
+    def block(self, body):
+        i = 0
+        while i < len(body):
+            st = body[i]
+            if isinstance(st, ast.Assign) and len(st.targets) == 1 and isinstance(st.value, ast.Call) and isinstance(st.value.func, ast.Name) and st.value.func.id == 'next' \
+                    and len(st.value.args) == 2 and isinstance(st.value.args[0], ast.GeneratorExp) and isinstance(st.value.args[1], ast.Constant) and st.value.args[1].value is None:
+                ge = st.value.args[0]
+                gen = ge.generators[0]
+                if len(ge.generators) == 1 and isinstance(gen.target, ast.Name) and isinstance(ge.elt, ast.Name) and ge.elt.id == gen.target.id and gen.ifs:
+                    self.hit()
+                    test = gen.ifs[0] if len(gen.ifs) == 1 else ast.BoolOp(op=ast.And(), values=list(gen.ifs))
+                    tgt_load = copy.deepcopy(st.targets[0])
+                    init = ast.Assign(targets=[copy.deepcopy(st.targets[0])], value=ast.Constant(value=None), lineno=st.lineno)
+                    loop = ast.For(target=ast.Name(id=gen.target.id, ctx=ast.Store()), iter=gen.iter,
+                                   body=[ast.If(test=test, body=[ast.Assign(targets=[copy.deepcopy(st.targets[0])], value=ast.Name(id=gen.target.id, ctx=ast.Load()), lineno=st.lineno),
+                                                                 ast.Break()], orelse=[])], orelse=[], lineno=st.lineno)
+                    body[i:i + 1] = [init, loop]
+                    i += 2
+                    continue
+            i += 1
+
+    def run(self, tree):
+        for n in ast.walk(tree):
+            for f in ('body', 'orelse', 'finalbody'):
+                b = getattr(n, f, None)
+                if isinstance(b, list) and b and isinstance(b[0], ast.stmt) and not isinstance(n, (ast.Module, ast.ClassDef)):
+                    self.block(b)
+
+
+class AliasRoleLists(Base):
+    """q = self.<list> at the top of a function that uses the list at least twice and never re-binds it; uses go through the alias"""
+
+    def run(self, tree):
+        for fn in [n for n in ast.walk(tree) if isinstance(n, ast.FunctionDef)]:
+            if any(isinstance(n, (ast.FunctionDef, ast.Lambda)) and n is not fn for n in ast.walk(fn)) or fn.name == '__init__':
+                continue
+            uses = {}
+            rebound = set()
+            for n in ast.walk(fn):
+                if isinstance(n, ast.Attribute) and isinstance(n.value, ast.Name) and n.value.id == 'self' and n.attr in ROLE - {'in_edges', 'out_edges', 'worker_thread_list'}:
+                    if isinstance(n.ctx, ast.Load):
+                        uses.setdefault(n.attr, []).append(n)
+                    else:
+                        rebound.add(n.attr)
+            doc = 1 if fn.body and isinstance(fn.body[0], ast.Expr) and isinstance(fn.body[0].value, ast.Constant) else 0
+            pre = []
+            for attr, nodes in sorted(uses.items()):
+                if len(nodes) < 2 or attr in rebound:
+                    continue
+                alias = f'_{attr}_alias'
+                for n in nodes:
+                    n.__class__ = ast.Name
+                    n.id = alias
+                    n.ctx = ast.Load()
+                    n._fields = ('id', 'ctx')
+                    self.hit()
+                pre.append(ast.Assign(targets=[ast.Name(id=alias, ctx=ast.Store())], value=ast.Attribute(value=ast.Name(id='self', ctx=ast.Load()), attr=attr, ctx=ast.Load()), lineno=fn.lineno))
+            fn.body[doc:doc] = pre
+
+
+class EarlyReturnGuard(Base):
+    """function ending in `if c: BODY` (no else)  ->  `if not c: return` ; BODY   (non-generator functions)"""
+
+    def run(self, tree):
+        for fn in [n for n in ast.walk(tree) if isinstance(n, ast.FunctionDef)]:
+            if any(isinstance(x, (ast.Yield, ast.YieldFrom)) for x in ast.walk(fn)):
+                continue
+            last = fn.body[-1]
+            if isinstance(last, ast.If) and not last.orelse and len(fn.body) >= 1:
+                self.hit()
+                t = last.test
+                nt = t.operand if isinstance(t, ast.UnaryOp) and isinstance(t.op, ast.Not) else ast.UnaryOp(op=ast.Not(), operand=t)
+                guard = ast.If(test=nt, body=[ast.Return(value=None)], orelse=[], lineno=last.lineno)
+                fn.body[-1:] = [guard] + last.body
+
+
 def build(name, p):
     cls = {'flag-eq-true': FlagEqTrue, 'flag-plain': FlagPlain, 'len-zero': LenZero, 'len-truth': LenTruth, 'swap-if-else': SwapIfElse,
            'flip-compare': FlipCompare, 'aug-expand': AugExpand, 'aug-contract': AugContract, 'ne-not-eq': NeNotEq, 'is-not-none': IsNotNone,
-           'demorgan': DeMorgan, 'tuple-in': TupleIn, 'else-after-term': ElseAfterTerm, 'else-after-term-back': ElseAfterTermBack}[name]
+           'demorgan': DeMorgan, 'tuple-in': TupleIn, 'else-after-term': ElseAfterTerm, 'else-after-term-back': ElseAfterTermBack,
+           'rename-locals': RenameLocals, 'next-to-loop': NextToLoop, 'alias-role-lists': AliasRoleLists, 'early-return-guard': EarlyReturnGuard}[name]
     cls.count = 0
     out = {}
     for rel, m in p.modules.items():
@@ -309,7 +417,7 @@ def build(name, p):
 
 
 NAMES = ['flag-eq-true', 'flag-plain', 'len-zero', 'len-truth', 'swap-if-else', 'flip-compare', 'aug-expand', 'aug-contract', 'ne-not-eq', 'is-not-none',
-         'demorgan', 'tuple-in', 'else-after-term', 'else-after-term-back']
+         'demorgan', 'tuple-in', 'else-after-term', 'else-after-term-back', 'rename-locals', 'next-to-loop', 'alias-role-lists', 'early-return-guard']
 
 
 def job(args):
